@@ -286,6 +286,21 @@ void HttpMessage::readBody()
 
 	bool end = false;
 
+	if (hasHeader("Content-Length"))
+	{
+		// a length is 1 to 10 decimal digits that fit an int; with a sign, other characters or more digits the value
+		// read above is something else than what the peer wrote and the framing is unknown: give the connection up
+		String cl = header("Content-Length");
+		bool valid = cl.length() >= 1 && cl.length() <= 10;
+		for (int i = 0; valid && i < cl.length(); i++)
+			valid = cl[i] >= '0' && cl[i] <= '9';
+		if (!valid || (Long)cl > 2147483647)
+		{
+			_socket->close();
+			return;
+		}
+	}
+
 	if (chunked) // Transfer-Encoding overrides Content-Length (RFC 7230 3.3.3): the chunks alone frame the body
 		size = 0;
 	else if (hasHeader("Content-Length")) {
